@@ -78,7 +78,7 @@ class SigmaRuleBase:
         ):  # Try to convert rule id into UUID object, but keep it if not possible
             try:
                 self.id = UUID(self.id)
-            except ValueError:
+            except (ValueError, AttributeError, TypeError):
                 pass
 
     @classmethod
@@ -145,7 +145,7 @@ class SigmaRuleBase:
         if rule_id is not None:
             try:
                 rule_id = UUID(rule_id)
-            except ValueError:
+            except (ValueError, AttributeError, TypeError):  # no UUID string or no string at all
                 errors.append(
                     sigma_exceptions.SigmaIdentifierError(
                         "Sigma rule identifier must be an UUID", source=source
